@@ -1,7 +1,8 @@
 ---- MODULE Gen_Handshake ----
 EXTENDS Handshake, Json
 CONSTANT Depth
-Done == \A s \in Sessions : dph[s] \in {"acc", "closed"} /\ aph[s] \in {"acc", "closed"}
-\* a run is printed at the requested depth or when both sessions are over
+Done == /\ \A s \in Dialled : dph[s] \in {"acc", "closed"} /\ aph[s] \in {"acc", "closed"}
+        /\ \A t \in Replayed : aph[t] \in {"acc", "closed"}
+\* a run is printed at the requested depth or when all sessions are over
 Emit == (Len(hist) = Depth \/ (Done /\ Len(hist) > 0)) => PrintT(<<"B", ToJson(hist)>>)
 ====
